@@ -121,6 +121,10 @@ process_data(struct video_filter_s* self,
                         .shape = shape,
                         .timestamps = in->timestamps,
                     };
+                    // The ring memory is reused: start the sum from zero.
+                    memset(accumulator[0]->data, // NOLINT
+                           0,
+                           bytes_of_accumulator - sizeof(struct VideoFrame));
                     CHECK(accumulate(*accumulator, in));
                     *frame_count = 1;
                 }
